@@ -40,12 +40,13 @@ if REPO not in sys.path:
 import sqlglot  # noqa: E402
 from sqlglot import exp  # noqa: E402
 
-MODULES = ["Model.Tree", "Proofs.Tree", "Proofs.TreeFrame", "Generated.C09", "Properties.C09"]
+MODULES = ["Model.Tree", "Proofs.Tree", "Proofs.TreeFrame", "Proofs.TreeCopy", "Proofs.TreeCopyShape", "Proofs.TreeWalk",
+           "Generated.C09", "Properties.C09"]
 _P = "SqlglotModel.Properties.C09."
 THEOREMS = [_P + n for n in (
     "set_frame", "append_frame", "replace_frame", "hash_touches_only_caches", "eq_touches_only_caches",
-    "frame_set", "frame_append", "frame_replace", "frame_pop", "copy_original_untouched",
-    "copy_equal_disjoint_partial", "generated_copy_defaults_ok",
+    "frame_set", "frame_append", "frame_replace", "frame_pop", "copy_equal_disjoint", "copy_original_untouched",
+    "transform_copy_pure", "generated_copy_defaults_ok",
 )]
 
 Expr = exp.Expr
@@ -995,6 +996,7 @@ def translate(chk: Check) -> str:
         "transformCopiesWhenAsked": tr is not None and _default_of(tr, "copy") is True and "self.copy() if copy else self" in _ast.unparse(tr),
         "optimizeCopiesInput": "maybe_parse(" in osrc and "copy=True" in osrc,
         "deepcopyCarriesHashBeforeArgs": "copy._hash = node._hash" in dsrc and dsrc.find("copy._hash = node._hash") < dsrc.find("node.args.items()"),
+        "deepcopyUsesSetAndAppend": c08._DEEPCOPY_LOOP in c08._stmts(dc, _ast.For),
     }
     for k, v in facts.items():
         if not v:
